@@ -1,0 +1,25 @@
+//go:build verif
+
+package helpers
+
+import (
+	"sync/atomic"
+	"time"
+)
+
+// verifTickOverride, when positive, replaces the period of RunAggregationLoop's render ticker (build tag
+// `verif` only), so that the verification harness can run schedules with many ticks per run without
+// waiting 100ms for each of them.  Zero (the default) leaves the period alone.
+var verifTickOverride int64
+
+// VerifSetTick sets the override (0 = none) and returns the previous value.
+func VerifSetTick(d time.Duration) time.Duration {
+	return time.Duration(atomic.SwapInt64(&verifTickOverride, int64(d)))
+}
+
+func verifTick(d time.Duration) time.Duration {
+	if o := atomic.LoadInt64(&verifTickOverride); o > 0 {
+		return time.Duration(o)
+	}
+	return d
+}
